@@ -49,6 +49,11 @@
  *   sdcreate k namelen rank                                                       -> ok | fail
  *   sdinfo k                       SDfileinfo                                     -> ok ndatasets
  *   sdname k i                     SDselect(i) SDgetinfo: name (pattern verified), rank  -> ok namelen rank | fail
+ *   sdattr k obj a nt count        SDsetattr on the file (obj -1), data set obj, or first dimension of data set obj-1000 -> ok | fail
+ *   sdattrinfo k obj a             SDfindattr + SDattrinfo                        -> ok nt count | fail
+ *   grattr2 nt c1 c2 / vgattr2 V nt c1 c2 / vsattr2 X nt c1 c2
+ *                                  GRsetattr / Vsetattr / VSsetattr of a NEW name with c1 values, again with c2 values,
+ *                                  then the count the interface reports       -> ok r1 r2 count
  *   sdmax n                        SDreset_maxopenfiles(n)                        -> ok value | fail
  *   sdgetmax                       SDget_maxopenfiles                             -> ok cur sys
  *   sdnopen                        SDget_numopenfiles                             -> ok n
@@ -78,6 +83,7 @@ static int32       vg[NV], vs[NV];
 static int32       vgrefs[64], vsrefs[64];
 static int         nvg, nvs;
 static int32       sd[NSD];
+static int32       grid = FAIL;   /* GR interface on the H-level file, started on first use, ended at reopen */
 
 static int32 feof_(void)
 {
@@ -176,6 +182,7 @@ static void run_history(char **lines, long *lnos, long n)
         }
         else if (!strcmp(op, "reopen")) {
             for (int i = 0; i < NV; i++) { if (vg[i] != FAIL) Vdetach(vg[i]); if (vs[i] != FAIL) VSdetach(vs[i]); vg[i] = vs[i] = FAIL; }
+            if (grid != FAIL) { GRend(grid); grid = FAIL; }
             Vend(fid);
             int c = Hclose(fid);
             fid = Hopen(hname, DFACC_RDWR, 0);
@@ -482,6 +489,67 @@ static void run_history(char **lines, long *lnos, long n)
             if (SDgetinfo(id, s, &rank, dims, &nt, &na) == FAIL || !okname(s, (long)strlen(s), 17)) printf("fail\n");
             else printf("ok %zu %d\n", strlen(s), rank);
             free(s); SDendaccess(id);
+        }
+        else if (!strcmp(op, "sdattr") || !strcmp(op, "sdattrinfo")) {
+            /* sdattr k obj a nt count | sdattrinfo k obj a   (obj: -1 file, i data set i, 1000+i first dimension of i) */
+            sscanf(L, "%*s %ld %ld %ld %ld %ld", &a[0], &a[1], &a[2], &a[3], &a[4]);
+            int32 sid = FAIL, id = FAIL;
+            if (a[1] == -1) id = sd[a[0]];
+            else {
+                sid = SDselect(sd[a[0]], (int32)(a[1] % 1000));
+                id  = (sid == FAIL) ? FAIL : (a[1] >= 1000 ? SDgetdimid(sid, 0) : sid);
+            }
+            char nm[32]; sprintf(nm, "A%ld", a[2]);
+            if (id == FAIL) printf("fail noobject\n");
+            else if (!strcmp(op, "sdattr")) {
+                size_t nb = (a[4] > 0 && a[4] <= 1000000 ? (size_t)a[4] : 1) * 8;   /* see grattr2 */
+                void *b = calloc(nb, 1);
+                int r = SDsetattr(id, nm, (int32)a[3], (int32)a[4], b);
+                free(b);
+                printf("%s\n", r != FAIL ? "ok" : "fail");
+            }
+            else {
+                int32 idx = SDfindattr(id, nm), nt = -1, cnt = -1; char an[300];
+                if (idx == FAIL || SDattrinfo(id, idx, an, &nt, &cnt) == FAIL) printf("fail\n");
+                else printf("ok %d %d\n", nt, cnt);
+            }
+            if (sid != FAIL) SDendaccess(sid);
+        }
+        else if (!strcmp(op, "grattr2") || !strcmp(op, "vgattr2") || !strcmp(op, "vsattr2")) {
+            /* set a NEW attribute name with c1 values, set the same name again with c2 values, ask for the count */
+            static int seq = 0;
+            int  isgr = op[0] == 'g', isvg = op[1] == 'g' && !isgr;
+            long slot = 0, nt, c1, c2;
+            if (isgr) sscanf(L, "%*s %ld %ld %ld", &nt, &c1, &c2); else sscanf(L, "%*s %ld %ld %ld %ld", &slot, &nt, &c1, &c2);
+            char nm[32]; sprintf(nm, "T%d", seq++);
+            /* the buffer holds the larger of the two requests as far as they are plausible (<= 10^6 values); a
+               request beyond that must be refused before the data is looked at (ASan reports it otherwise) */
+            long big = 1;
+            if (c1 > big && c1 <= 1000000) big = c1;
+            if (c2 > big && c2 <= 1000000) big = c2;
+            void *b = calloc((size_t)big * 8, 1);
+            int r1, r2; int32 cnt = -1;
+            if (isgr) {
+                if (grid == FAIL) grid = GRstart(fid);
+                r1 = GRsetattr(grid, nm, (int32)nt, (int32)c1, b);
+                r2 = GRsetattr(grid, nm, (int32)nt, (int32)c2, b);
+                int32 idx = GRfindattr(grid, nm), ant; char an[300];
+                if (idx == FAIL || GRattrinfo(grid, idx, an, &ant, &cnt) == FAIL) cnt = -1;
+            }
+            else if (isvg) {
+                r1 = Vsetattr(vg[slot], nm, (int32)nt, (int32)c1, b);
+                r2 = Vsetattr(vg[slot], nm, (int32)nt, (int32)c2, b);
+                intn idx = Vfindattr(vg[slot], nm); int32 ant, sz; char an[300];
+                if (idx == FAIL || Vattrinfo(vg[slot], idx, an, &ant, &cnt, &sz) == FAIL) cnt = -1;
+            }
+            else {
+                r1 = VSsetattr(vs[slot], _HDF_VDATA, nm, (int32)nt, (int32)c1, b);
+                r2 = VSsetattr(vs[slot], _HDF_VDATA, nm, (int32)nt, (int32)c2, b);
+                intn idx = VSfindattr(vs[slot], _HDF_VDATA, nm); int32 ant, sz; char an[300];
+                if (idx == FAIL || VSattrinfo(vs[slot], _HDF_VDATA, idx, an, &ant, &cnt, &sz) == FAIL) cnt = -1;
+            }
+            free(b);
+            printf("ok %d %d %d\n", r1 != FAIL, r2 != FAIL, cnt);
         }
         else if (!strcmp(op, "sdmax")) {
             sscanf(L, "%*s %ld", &a[0]);
